@@ -53,6 +53,9 @@ func (vc *VC) primitiveMod(f *ssa.Function, c *ssa.CallCommon, li *loopInfo) {
 			return
 		}
 		for _, cl := range vc.fc.clauses("modifies") {
+			if cl.Mode != "" && cl.Mode != vc.mode {
+				continue
+			}
 			for _, tgt := range splitTargets(cl.Text) {
 				keys, ok := vc.staticTargetKeys(tgt, vc.fn, nil)
 				if !ok {
@@ -191,6 +194,9 @@ func (st *State) primitive(f *ssa.Function, args []Val, site ssa.Instruction) (V
 			ec.names = st.topNames()
 			var tgts []string
 			for _, c := range vc.fc.clauses("modifies") {
+				if c.Mode != "" && c.Mode != vc.mode {
+					continue
+				}
 				tgts = append(tgts, splitTargets(c.Text)...)
 			}
 			ec.havocTargets(tgts)
@@ -354,12 +360,21 @@ type guardRule struct {
 	lock  string // lock field path (in the same root) or "caller"
 }
 
-var guardedRe = regexp.MustCompile(`^\s*([A-Za-z0-9_.]+)\s*:\s*(.*)$`)
+var guardedRe = regexp.MustCompile(`^\s*((?:any\s+)?[A-Za-z0-9_.]+)\s*:\s*(.*)$`)
 
 func (vc *VC) guardRules() []guardRule {
 	var out []guardRule
 	for _, td := range vc.cs.Types {
 		for _, c := range td.Clauses {
+			if c.Kw == "frozen" {
+				// fields written only while the object is still private to its constructor
+				for _, f := range strings.Split(c.Text, ",") {
+					if f = strings.TrimSpace(f); f != "" {
+						out = append(out, guardRule{root: td.Pkg + "." + td.Name, field: f, lock: "frozen"})
+					}
+				}
+				continue
+			}
 			if c.Kw != "guarded_by" {
 				continue
 			}
@@ -405,22 +420,19 @@ func (st *State) guardCheck(p PtrV, write bool, site ssa.Instruction, addrOnly b
 		if st.nonnil["fresh:"+p.Base.S] {
 			return
 		}
-		var need string
 		if r.lock == "caller" {
 			return
 		}
-		need = p.Root + "#" + p.Base.S + "#" + r.lock
-		mode := st.held[need]
-		okk := mode == "w" || (!write && mode == "r")
-		if !okk {
-			// holder may be declared by the contract: "holds <lockexpr>"
-			if vc.fc != nil {
-				for _, c := range vc.fc.clauses("holds") {
-					if strings.TrimSpace(c.Text) == "caller-lock" {
-						okk = true
-					}
-				}
+		okk := false
+		if r.lock == "frozen" {
+			if !write {
+				return
 			}
+		} else if strings.HasPrefix(r.lock, "any ") {
+			okk = st.heldAny(strings.TrimSpace(r.lock[4:]), write)
+		} else {
+			mode := st.held[p.Root+"#"+p.Base.S+"#"+r.lock]
+			okk = mode == "w" || (!write && mode == "r")
 		}
 		acc := "read"
 		if write {
@@ -428,6 +440,70 @@ func (st *State) guardCheck(p PtrV, write bool, site ssa.Instruction, addrOnly b
 		}
 		st.oblige("guard", fmt.Sprintf("%s.%s@%s#%d", shortRoot(p.Root), p.Path, acc, vc.ordinals[site]), tBool(okk), fmt.Sprintf("%s of %s.%s requires %s", acc, p.Root, p.Path, r.lock))
 		return
+	}
+}
+
+// heldAny: some lock "<pkg.Type>.<field>" (of whatever object) is held; write access needs write mode.
+func (st *State) heldAny(spec string, write bool) bool {
+	i := strings.LastIndex(spec, ".")
+	if i < 0 {
+		return false
+	}
+	root, field := spec[:i], spec[i+1:]
+	for k, mode := range st.held {
+		a, b := strings.Index(k, "#"), strings.LastIndex(k, "#")
+		if a < 0 || b <= a {
+			continue
+		}
+		if k[:a] == root && k[b+1:] == field && (mode == "w" || !write) {
+			return true
+		}
+	}
+	return false
+}
+
+// holdsAtEntry: "holds any pkg.Type.field [r]" clauses of the function's own contract: the caller holds that lock.
+func (vc *VC) holdsAtEntry(st *State) {
+	if vc.fc == nil {
+		return
+	}
+	for _, c := range vc.fc.clauses("holds") {
+		fs := strings.Fields(c.Text)
+		if len(fs) >= 2 && fs[0] == "any" {
+			i := strings.LastIndex(fs[1], ".")
+			mode := "w"
+			if len(fs) >= 3 && fs[2] == "r" {
+				mode = "r"
+			}
+			st.held[fs[1][:i]+"#*#"+fs[1][i+1:]] = mode
+		}
+	}
+}
+
+// holdsAtCall: the callee's contract says its caller holds a lock: obligation at the call site (B1).
+func (st *State) holdsAtCall(fc *FuncContract, siteLabel string, args []Val) {
+	if st.vc.mode != "B1" {
+		return
+	}
+	if len(args) > 0 {
+		// receiver allocated by this function and not yet shared: nobody else can reach it (constructors)
+		switch a := args[0].(type) {
+		case TV:
+			if st.nonnil["fresh:"+a.T.S] {
+				return
+			}
+		case PtrV:
+			if st.nonnil["fresh:"+a.Base.S] {
+				return
+			}
+		}
+	}
+	for _, c := range fc.clauses("holds") {
+		fs := strings.Fields(c.Text)
+		if len(fs) >= 2 && fs[0] == "any" {
+			write := !(len(fs) >= 3 && fs[2] == "r")
+			st.oblige("guard", "holds:"+fs[1]+"@"+siteLabel, tBool(st.heldAny(fs[1], write)), "call of "+fc.Key+" requires a held "+fs[1])
+		}
 	}
 }
 
